@@ -629,6 +629,15 @@ _C19 = [
      'translator': 'py2lean_c19', 'ext': 'py2lean_c19', 'gen_file': 'strutils_lines',
      'c19': {'text': ['text'], 'text_params': ['margin', 'newline'], 'poly_text': True, 'pred': {'key': 'line_key'},
              'join': True}},
+    # binary mode: `file_obj` is a binary file object WITHOUT `.encoding` / `.detach` (io.BytesIO) = (content, position);
+    # `encoding` is None; a byte is an item of β with [PyRtC19.Byte β]
+    {'module': 'boltons.jsonutils', 'qualname': 'reverse_iter_lines', 'lean_name': 'reverse_iter_lines',
+     'params': {'file_data': 'List β', 'file_pos': 'Int', 'blocksize': 'Int', 'preseek': 'Bool'},
+     'tparams': ['β'], 'deceq': ['β'], 'classes': ['PyRtC19.Byte β'],
+     'kind': 'generator', 'result': 'List β', 'raises': True, 'loop_fuel': True,
+     'tie_theorem': 'C19.src_reverse_iter_lines_eq_model',
+     'translator': 'py2lean_c19', 'ext': 'py2lean_c19', 'gen_file': 'jsonutils_lines',
+     'c19': {'file': {'param': 'file_obj', 'data': 'file_data', 'pos': 'file_pos'}, 'none_params': ['encoding']}},
 ]
 SPECS['C19'] = _C19
 # boltons.setutils.IndexedSet (round 3d, C11): the tombstone / dead-interval bookkeeping, translated by
